@@ -427,7 +427,8 @@ func c04FailProp(t *testing.T, k *verifkit.Kit) func(c c04Case) error {
 			windows = append(windows, [2]time.Duration{failing, 1 << 62})
 		}
 		for i, x := range r.Writes {
-			final := c.Sc.Terminate && x.Start >= r.StopAt && x.Dst == vkAllNodes && i == len(r.Writes)-1 && r.Returned
+			// (when Run ended by itself with an error there is no final advertisement: the last write is an ordinary one)
+			final := c.Sc.Terminate && x.Start >= r.StopAt && x.Dst == vkAllNodes && i == len(r.Writes)-1 && r.Returned && r.RetErr == nil
 			f, amb := fwdAt(c, "eth0", x.Start)
 			for _, wd := range windows {
 				if x.Start >= wd[0] && x.Start <= wd[1] {
@@ -469,6 +470,10 @@ func c04GenFail(t *rapid.T) c04Case {
 		}
 	}
 	sc.StopNS = at + rapid.Int64Range(1, 5*s).Draw(t, "tail")
+	if rapid.IntRange(0, 3).Draw(t, "writefails") == 0 {
+		// ... and some transmission fails (the advertiser re-initialises on a new connection)
+		sc.Lat = []latRule{{Dst: rapid.SampledFrom([]string{"unicast", "multicast", "any"}).Draw(t, "faildst"), N: rapid.IntRange(1, 4).Draw(t, "failnth"), Err: "syscall"}}
+	}
 	return c04Case{Sc: sc}
 }
 
